@@ -404,9 +404,11 @@ func (s *watchSrc) Watch(_ context.Context, t *dials.Type, args dials.WatchArgs)
 }
 
 // genHistory builds, from the case's PRNG state alone, the caller's defaults and
-// every value the two sources will ever return or report (2 + updates values of
-// the pointerified type), with slots of later values aliased to earlier inputs.
-func genHistory(in input) (*HCfg, []reflect.Value, int) {
+// every value the three sources (one static, two watching: A and B) will ever return or
+// report (3 + updates values of the pointerified type), with slots of later values aliased
+// to earlier inputs, and the script of the run: updates of A and B, at most one Done of A
+// (after which only B updates), error reports of either watcher.
+func genHistory(in input) (*HCfg, []reflect.Value, int, []string) {
 	r := coqfmt.NewRng(in.State)
 	cfg := &HCfg{hidden: 7}
 	rty.GenValue(r, reflect.ValueOf(cfg).Elem(), rty.VOpts{NilNum: 1, NilDen: 4}, 0)
@@ -414,7 +416,7 @@ func genHistory(in input) (*HCfg, []reflect.Value, int) {
 	inputs := []reflect.Value{reflect.ValueOf(cfg)} // pointers to every input value
 	pt := ptrify.Pointerify(reflect.TypeOf(HCfg{}), reflect.ValueOf(cfg).Elem())
 	planted := 0
-	for i := 0; i < 2+in.Updates; i++ {
+	for i := 0; i < 3+in.Updates; i++ {
 		p := reflect.New(pt)
 		rty.GenValue(r, p.Elem(), rty.VOpts{NilNum: r.Intn(4), NilDen: 4}, 0)
 		emptyWithCap(r, []reflect.Value{p.Elem()}, 1, 4)
@@ -425,11 +427,34 @@ func genHistory(in input) (*HCfg, []reflect.Value, int) {
 		planted += shareInto(r, roots, p.Elem())
 		inputs = append(inputs, p)
 	}
-	return cfg, inputs, planted
+	// the script
+	var script []string
+	doneAt := -1
+	if in.Updates >= 2 && r.Chance(2, 3) {
+		doneAt = r.Intn(in.Updates - 1) // A reports Done before update number doneAt: at least two updates of B follow
+	}
+	for i := 0; i < in.Updates; i++ {
+		if i == doneAt {
+			script = append(script, "doneA")
+		}
+		if r.Chance(1, 4) {
+			if doneAt >= 0 && i >= doneAt || r.Chance(1, 2) {
+				script = append(script, "errB")
+			} else {
+				script = append(script, "errA")
+			}
+		}
+		if doneAt >= 0 && i >= doneAt || r.Chance(1, 2) {
+			script = append(script, "B")
+		} else {
+			script = append(script, "A")
+		}
+	}
+	return cfg, inputs, planted, script
 }
 
 func runHistory(in input, mutateDefaults bool) (driver.Result, []string) {
-	cfg, inputs, planted := genHistory(in)
+	cfg, inputs, planted, script := genHistory(in)
 	var snaps []string
 	next := 1
 	mk := func(t *dials.Type) reflect.Value {
@@ -444,8 +469,9 @@ func runHistory(in input, mutateDefaults bool) (driver.Result, []string) {
 	defer cancel()
 	s0 := &staticSrc{mk: mk}
 	s1 := &watchSrc{mk: mk}
+	s2 := &watchSrc{mk: mk}
 	var direct []string
-	d, err := dials.Config(ctx, cfg, s0, s1)
+	d, err := dials.Config(ctx, cfg, s0, s1, s2)
 	if err != nil {
 		return driver.Result{Coq: "History FNil [] 0 0 [] []", Kind: "history", Direct: []string{"Config failed: " + err.Error()}}, nil
 	}
@@ -464,14 +490,42 @@ func runHistory(in input, mutateDefaults bool) (driver.Result, []string) {
 		}
 	}()
 	versions := []reflect.Value{reflect.ValueOf(d.View())}
-	for i := 0; i < in.Updates; i++ {
-		v := mk(s1.typ)
+	curA, curB := 2, 3 // indices (in inputs) of the values of the watchers A and B in force
+	inForce := [][2]int{{curA, curB}}
+	doneSeen := false
+	for _, ev := range script {
 		uctx, ucancel := context.WithTimeout(ctx, 10*time.Second)
-		if err := s1.args.BlockingReportNewValue(uctx, v); err != nil {
-			direct = append(direct, "BlockingReportNewValue failed: "+err.Error())
+		switch ev {
+		case "doneA":
+			s1.args.Done(uctx) // A stops watching; its last value stays in force
+			doneSeen = true
+		case "errA":
+			if err := s1.args.ReportError(uctx, fmt.Errorf("harness error A")); err != nil {
+				direct = append(direct, "ReportError failed: "+err.Error())
+			}
+		case "errB":
+			if err := s2.args.ReportError(uctx, fmt.Errorf("harness error B")); err != nil {
+				direct = append(direct, "ReportError failed: "+err.Error())
+			}
+		default:
+			src := s1
+			if ev == "B" {
+				src = s2
+			}
+			idx := next
+			v := mk(src.typ)
+			if err := src.args.BlockingReportNewValue(uctx, v); err != nil {
+				direct = append(direct, "BlockingReportNewValue failed: "+err.Error())
+			}
+			if ev == "B" {
+				curB = idx
+			} else {
+				curA = idx
+			}
+			versions = append(versions, reflect.ValueOf(d.View()))
+			inForce = append(inForce, [2]int{curA, curB})
 		}
 		ucancel()
-		versions = append(versions, reflect.ValueOf(d.View()))
 	}
 	for _, q := range inputs {
 		snaps = append(snaps, graphwalk.Canon(q))
@@ -507,10 +561,10 @@ func runHistory(in input, mutateDefaults bool) (driver.Result, []string) {
 			}
 		}
 	}
-	// the source values in force at every stacking: [static value; current value of the watcher]
+	// the source values in force at every stacking: [static value; value of watcher A; value of watcher B]
 	evTerms := make([]string, len(versions))
 	for i := range versions {
-		evTerms[i] = fmt.Sprintf("[%d; %d]", w.PtrID(inputs[1]), w.PtrID(inputs[2+i]))
+		evTerms[i] = fmt.Sprintf("[%d; %d; %d]", w.PtrID(inputs[1]), w.PtrID(inputs[inForce[i][0]]), w.PtrID(inputs[inForce[i][1]]))
 	}
 	vcanon := make([]string, len(versions))
 	for i, v := range versions {
@@ -529,6 +583,9 @@ func runHistory(in input, mutateDefaults bool) (driver.Result, []string) {
 		direct = append(direct, "input count differs from the dials-free regeneration")
 	}
 	tags := []string{fmt.Sprintf("updates-%d", in.Updates)}
+	if doneSeen {
+		tags = append(tags, "watcher-done-then-restacks")
+	}
 	if planted > 0 {
 		tags = append(tags, "shared-inputs")
 	}
@@ -618,7 +675,7 @@ func shareInto(r *coqfmt.Rng, older []reflect.Value, dst reflect.Value) int {
 
 // regenerate replays the generation of the inputs of a history case without dials.
 func regenerate(in input) []string {
-	_, inputs, _ := genHistory(in)
+	_, inputs, _, _ := genHistory(in)
 	out := make([]string, len(inputs))
 	for i, q := range inputs {
 		out[i] = graphwalk.Canon(q)
@@ -654,7 +711,7 @@ func gen(r *coqfmt.Rng, n int, tier string) []json.RawMessage {
 	for i := 0; i < n; i++ {
 		var in input
 		if i%8 == 7 {
-			in = input{K: "history", State: r.U64(), Updates: r.Intn(5)}
+			in = input{K: "history", State: r.U64(), Updates: r.Intn(6)}
 		} else {
 			depth := 1 + r.Intn(3)
 			if tier == "thorough" {
@@ -673,7 +730,7 @@ func main() {
 		Prop: "C02", CoqImport: "Dials.Check.C02Check", CoqRun: "run_cases",
 		Rule: "stack2: random struct types as for C01, random defaults and 0-3 layers, equal-typed maps / slices (also sub-slices) / pointers " +
 			"aliased at random between the defaults and the layers and between layers, some slice fields made empty but non-nil with spare capacity (s[:0], make([]T,0,n)), stacked twice through VerifCompose, then elements appended within capacity to the first result; history: dials.Config over a " +
-			"fixed type with a static and a watching source, 0-4 updates, each new value aliasing slots of the defaults and of values reported earlier; " +
+			"fixed type with a static and TWO watching sources, 0-5 updates scripted per case (updates of either watcher, error reports, at most one Done of the first watcher followed by >= 2 updates of the second), each new value aliasing slots of the defaults and of values reported earlier; " +
 			"non-trivial: at least one reference is shared between inputs (and >= 1 layer / >= 1 update); distinct = distinct PRNG case states",
 		Gen: gen, Run: run,
 	})
